@@ -141,6 +141,43 @@ def register(cat, simple, binary, with_scalar, _perm, _dims_subset, gen_ttm, run
 
     op("S.setitem", "S", gen_S_setitem, run_setitem, inplace=True, weight=0.7)
 
+    def gen_S_setitem_region(c, r):
+        # S[region] = another sparse tensor of the region's shape (the right-hand side is an operand too)
+        sh = tuple(c.obj(r).shape)
+        n = len(sh)
+        d = c.g.randrange(n)
+        i = c.g.randrange(sh[d])
+        rest = tuple(s for k, s in enumerate(sh) if k != d)
+        if not rest:
+            return None
+        rhs = c.pick("S", lambda o: tuple(o.shape) == rest, exclude=(r,))
+        if rhs is None:
+            return None
+        return {"operands": [r, rhs], "dim": d, "index": i}
+
+    def run_S_setitem_region(eng, ops, st):
+        key = [slice(None, None, None)] * ops[0].ndims
+        key[st["dim"]] = st["index"]
+        ops[0][tuple(key)] = ops[1]
+        return ops[0]
+
+    op("S.setitem_region_sparse_rhs", "S", gen_S_setitem_region, run_S_setitem_region, inplace=True, weight=2.5)
+
+    def gen_T_setitem_region(c, r):
+        sh = tuple(c.obj(r).shape)
+        n = len(sh)
+        d = c.g.randrange(n)
+        i = c.g.randrange(sh[d])
+        rest = tuple(s for k, s in enumerate(sh) if k != d)
+        if not rest:
+            return None
+        rhs = c.pick("T", lambda o: tuple(o.shape) == rest, exclude=(r,))
+        if rhs is None:
+            return None
+        return {"operands": [r, rhs], "dim": d, "index": i}
+
+    op("T.setitem_region_tensor_rhs", "T", gen_T_setitem_region, run_S_setitem_region, inplace=True, weight=1.5)
+
     # -------------------------------------------------------------------- ktensor
     simple("K.copy", "K", lambda k: k.copy())
     simple("K.deepcopy", "K", lambda k: _copy.deepcopy(k), weight=0.5)
@@ -396,7 +433,8 @@ def register(cat, simple, binary, with_scalar, _perm, _dims_subset, gen_ttm, run
             return None
         if c.g.random() < 0.5:
             return {"operands": [r], "tol": 0.3, "ranks": None}
-        return {"operands": [r, c.fresh(np.array([c.g.randint(1, s) for s in x.shape], dtype=int))], "tol": 0.3, "ranks": "operand"}
+        # 0 = "choose this rank from the tolerance"
+        return {"operands": [r, c.fresh(np.array([c.g.choice([0, c.g.randint(1, s)]) for s in x.shape], dtype=int))], "tol": 0.3, "ranks": "operand"}
 
     def run_hosvd(eng, ops, st):
         if st["ranks"] is None:
